@@ -262,9 +262,9 @@ theorem lds_ok (m : Mn) (idx : Nat) (hg : goodLds m idx = true) (x : Ctx) (c : C
 
 /-! #### `CBI/SBI/SBIC/SBIS` -/
 
-/-- the statements on which `DecodePBit` keeps nine bits of an address that passed the range check of the data space -/
+/-- the statements on which `DecodePBit` keeps sixteen bits of an address (nine before the repair 99afd52) that passed the range check of the data space -/
 def pbitTrunc (p : Props) (s : Src) : Prop :=
-  (form s.mn).opds = [.imm 0 31 5, .imm 0 7 3] ∧ ∃ a bit, s.args = [a, bit] ∧ 512 ≤ a ∧ a ≤ segLimitData p
+  (form s.mn).opds = [.imm 0 31 5, .imm 0 7 3] ∧ ∃ a bit, s.args = [a, bit] ∧ 65536 ≤ a ∧ a ≤ segLimitData p
 
 noncomputable def goodPbit (m : Mn) (code : Nat) : Bool :=
   (form m).opds == [.imm 0 31 5, .imm 0 7 3] && !(form m).bare && (m == .CBI || m == .SBI || m == .SBIC || m == .SBIS) &&
@@ -274,8 +274,8 @@ theorem pbit_desc (x : Ctx) (c : Cpu) (h : compat x.p c = true) (code : Nat) (ar
     okBytes (decodePBit x code args) =
       match args with
       | [a1, a2] =>
-        if (0 ≤ a2 ∧ a2 ≤ 7) ∧ (0 ≤ a1 ∧ a1 ≤ dataHi x.p) ∧ ¬ (a1 > segLimitData x.p) ∧ ¬ (a1.toNat % 512 > 31) then
-          some (appendCode (code ||| toWord a2 ||| ((a1.toNat % 512) <<< 3)))
+        if (0 ≤ a2 ∧ a2 ≤ 7) ∧ (0 ≤ a1 ∧ a1 ≤ dataHi x.p) ∧ ¬ (a1 > segLimitData x.p) ∧ ¬ (a1.toNat % 65536 > 31) then
+          some (appendCode (code ||| toWord a2 ||| ((a1.toNat % 65536) <<< 3)))
         else none
       | _ => none := by
   have hf := compat_facts x.p c h
@@ -288,7 +288,7 @@ theorem pbit_desc (x : Ctx) (c : Cpu) (h : compat x.p c = true) (code : Nat) (ar
     · by_cases h1 : 0 ≤ a1 ∧ a1 ≤ dataHi x.p
       · by_cases h3 : a1 > segLimitData x.p
         · simp [h2, h1, h3]
-        · by_cases h4 : a1.toNat % 512 > 31
+        · by_cases h4 : a1.toNat % 65536 > 31
           · simp [h2, h1, h3, h4]
           · simp [h2, h1, h3, h4]
       · simp [h2, h1]
@@ -310,11 +310,11 @@ theorem pbit_sound (m : Mn) (code : Nat) (hg : goodPbit m code = true) (x : Ctx)
     · rename_i hc
       simp only [Option.some.injEq] at hob
       subst hob
-      have hlt : a1 < 512 := by
-        by_cases h5 : a1 < 512
+      have hlt : a1 < 65536 := by
+        by_cases h5 : a1 < 65536
         · exact h5
         · exact absurd ⟨hopds, a1, a2, rfl, by omega, by omega⟩ hside
-      have ha : a1.toNat % 512 = a1.toNat := by omega
+      have ha : a1.toNat % 65536 = a1.toNat := by omega
       have h32 : a1.toNat < 32 := by omega
       have hb8 : a2.toNat < 8 := by omega
       have hbw : toWord a2 = a2.toNat := by unfold toWord; omega
@@ -342,15 +342,15 @@ theorem pbit_ok (m : Mn) (code : Nat) (hg : goodPbit m code = true) (x : Ctx) (c
   · rfl
   · simp [acceptsAll]
   · simp only [acceptsAll, Bool.and_true, Opd.accepts]
-    have hlt : a1 < 512 ∨ a1 > segLimitData x.p := by
-      by_cases h5 : a1 < 512
+    have hlt : a1 < 65536 ∨ a1 > segLimitData x.p := by
+      by_cases h5 : a1 < 65536
       · exact Or.inl h5
       · by_cases h6 : a1 > segLimitData x.p
         · exact Or.inr h6
         · exact absurd ⟨hopds, a1, a2, rfl, by omega, by omega⟩ hside
     have h31 := hf.data31
     have hle := hf.dataLe
-    by_cases hc : (0 ≤ a2 ∧ a2 ≤ 7) ∧ (0 ≤ a1 ∧ a1 ≤ dataHi x.p) ∧ ¬ (a1 > segLimitData x.p) ∧ ¬ (a1.toNat % 512 > 31)
+    by_cases hc : (0 ≤ a2 ∧ a2 ≤ 7) ∧ (0 ≤ a1 ∧ a1 ≤ dataHi x.p) ∧ ¬ (a1 > segLimitData x.p) ∧ ¬ (a1.toNat % 65536 > 31)
     · have : (0 ≤ a1 ∧ a1 ≤ 31) ∧ (0 ≤ a2 ∧ a2 ≤ 7) := by omega
       simp [hc, this]
     · have : ¬ ((0 ≤ a1 ∧ a1 ≤ 31) ∧ (0 ≤ a2 ∧ a2 ≤ 7)) := by omega
